@@ -47,7 +47,7 @@ pub static SPEC: Spec = Spec {
         "layout rules not exercised by the golden scenario (second slot chosen by equal bits, partial flag, block-only / upgrade-only entries) rest on my reading of the JS sources as quoted in the crate's comments",
     ],
     exhaustive_note: "every operation boundary of every history/session executed is decoded; synthetic variants: all four bit pairs x {no extra, partial tail, stale entries, torn tail} per base image",
-    hang_secs: 30,
+    hang_secs: 120,
 };
 
 fn sha(b: &[u8]) -> String {
